@@ -407,7 +407,7 @@ func C01Cases(tier string, seed int64) []Case {
 		}
 	}
 	// DKLs23 (bbot variant): one 2-party quorum of a 2-of-3 threshold structure (thorough: also a CNF
-	// structure and a 3-party quorum)
+	// structure)
 	{
 		pol := thresholdPolicy(2, idPools[1][:3])
 		q := sortedIDs(pol.IDs)[:2]
@@ -423,10 +423,9 @@ func C01Cases(tier string, seed int64) []Case {
 			cases = append(cases, Case{ID: fmt.Sprintf("C01/dkls23-bbot/%s/quorum=%s", pol2.Name, setName(q2)),
 				Desc: map[string]any{"protocol": "dkls23 signing_bbot rounds 1-4", "policy": pol2.Name, "quorum": q2, "randomness": "symbolic"},
 				Sym:  func(e *SymEnv) { dklsHash = sha256.New; c01Dkls23(e, pol2, q2, []byte("dkls23 message")) }, MustReach: []string{"dkls23-done"}, NoConcreteValidation: true})
-			q3 := sortedIDs(pol.IDs)
-			cases = append(cases, Case{ID: fmt.Sprintf("C01/dkls23-bbot/%s/quorum=%s", pol.Name, setName(q3)),
-				Desc: map[string]any{"protocol": "dkls23 signing_bbot rounds 1-4", "policy": pol.Name, "quorum": q3, "randomness": "symbolic"},
-				Sym:  func(e *SymEnv) { dklsHash = sha256.New; c01Dkls23(e, pol, q3, []byte("dkls23 message")) }, MustReach: []string{"dkls23-done"}, NoConcreteValidation: true})
+			// A 3-party quorum of the same structure is outside the bound: that run (three pairwise
+			// multiplications per cosigner, every branch decided by the solver) did not finish one case
+			// in 100 minutes; the 2-party quorums of two structures are what is claimed.
 		}
 	}
 	cases = append(cases, c01BoldyrevaCases(tier)...)
